@@ -274,3 +274,44 @@ def bad_markers(s):
     if s is None:
         return ["no-output"]
     return [m for m in ("panic", "fault(", "!outside", "!accessor-mismatch", "runaway", "!placement") if m in s and not (m == "fault(" and s.startswith("ok(") and ";fault=" in s)]
+
+
+def search_decode(prop, rng, corr_failures, run_cases, limit=10):
+    """After a correspondence difference in a decode family: look for an input on which the property's
+    own oracle fails, in the neighbourhood of the inputs that differ - every truncation of each
+    (windows that end inside a header are where unchecked reads show), byte flips in the first headers,
+    and a few extensions.  Returns a core.Failure or None."""
+    from .core import Failure
+
+    seen = set()
+    cands = []
+    for f in corr_failures[:limit]:
+        meta = f.case.meta
+        h = meta.get("data")
+        if not isinstance(h, str) or h in seen:
+            continue
+        seen.add(h)
+        d = b"" if h == "-" else bytes.fromhex(h)
+        variants = [d[:k] for k in range(0, min(len(d), 96) + 1)]
+        for i in range(min(len(d), 20)):
+            for bit in (0x01, 0x04, 0x10, 0x40, 0x0F, 0xF0):
+                e = bytearray(d)
+                e[i] ^= bit
+                variants.append(bytes(e))
+        for _ in range(6):
+            variants.append(d + bytes(rng.randrange(256) for _ in range(rng.randrange(1, 24))))
+        for v in variants:
+            m = dict(meta)
+            m["data"] = v.hex() if v else "-"
+            mk = getattr(prop, "build", None) or getattr(prop, "rebuild", None)
+            c = mk(m) if mk else None
+            if c is not None:
+                cands.append(c)
+    if not cands:
+        return None
+    run_cases(cands)
+    for c in cands:
+        fs = prop.oracle(c)
+        if fs:
+            return Failure("oracle", fs[0][0], c, fs[0][1])
+    return None
